@@ -17,6 +17,11 @@ use crate::config::Config;
 
 use self::storage::TorrentMaps;
 
+#[cfg(feature = "verif-hooks")]
+pub mod verif_hooks {
+    pub use super::storage::{LargePeerMap, TorrentMap, TorrentMaps};
+}
+
 pub async fn run_swarm_worker(
     config: Config,
     state: State,
